@@ -848,6 +848,16 @@ async fn ensure_proposition(
         }
     }
 
+    // The same holds inside one statement: a tuple an earlier clause already staged for
+    // creation is bound, not staged a second time (the second row would only fail on the
+    // unique `tuple_key` index halfway through the commit).
+    if let Some(id) = tx.staged_new_proposition(&key) {
+        if let Some(handle) = &clause.handle {
+            tx.bind_existing(handle, id)?;
+        }
+        return Ok(());
+    }
+
     let id = tx.mint(ElementKind::Proposition).await?;
     if let Some(handle) = &clause.handle {
         tx.bind_existing(handle, id)?;
